@@ -23,11 +23,20 @@ func runLive(in *mvInput, r *rand.Rand, n int, sink *CaseSink) {
 	in.Sn = int(sn)
 	snap := e.snaps[sn]
 	view := e.ref.snapItm[sn]
-	pre := len(e.coqOps)
-	preOps := cList(e.coqOps[:pre])
 	it := snap.NewIterator()
 	e.liveIter = true
 	g := &mvGen{r: r, e: e, nkeys: 9, protect: sn}
+	// the iterator holds its own reference of the snapshot: in half of the cases that reference is
+	// made explicit (an OpenSnap for the model and the reference) and the creator's handle may then be
+	// closed while the scan is running
+	ownRef := r.Intn(2) == 0
+	if ownRef {
+		e.ref.snapRef[sn]++
+		e.coqOps = append(e.coqOps, fmt.Sprintf("OpenSnap %d", sn))
+		e.coqObs = append(e.coqObs, "OBool true") // protect keeps the last reference (now the iterator's)
+	}
+	pre := len(e.coqOps)
+	preOps := cList(e.coqOps[:pre])
 	var script, iobs, outs []string
 	var got [][]byte
 	changed := 0
@@ -92,6 +101,11 @@ func runLive(in *mvInput, r *rand.Rand, n int, sink *CaseSink) {
 	}
 	it.Close()
 	e.liveIter = false
+	if ownRef {
+		e.ref.snapRef[sn]--
+		e.coqOps = append(e.coqOps, fmt.Sprintf("CloseSnap %d", sn))
+		e.coqObs = append(e.coqObs, "OUnit")
+	}
 	coq := fmt.Sprintf("CLive %d %s %d %s %s %s", in.Cmp, preOps, sn, cList(script), cList(iobs), cList(outs))
 	// oracle: exactly the items the snapshot held at its creation, from the start position on
 	bad := ""
@@ -107,7 +121,7 @@ func runLive(in *mvInput, r *rand.Rand, n int, sink *CaseSink) {
 		}
 	}
 	rec := &mvInput{Mode: "live", Cmp: in.Cmp, MM: in.MM, GenSeed: in.GenSeed, GenN: in.GenN}
-	idx := sink.Add(coq, rec, fmt.Sprintf("live-cmp%d-mm%v-rate%d", in.Cmp, in.MM, rate), changed >= 3 && len(view) >= 2)
+	idx := sink.Add(coq, rec, fmt.Sprintf("live-cmp%d-mm%v-rate%d-own%v", in.Cmp, in.MM, rate, ownRef), changed >= 3 && len(view) >= 2)
 	if bad != "" {
 		sink.Fail(idx, bad, "c01-live-scan", rec)
 	}
